@@ -240,6 +240,7 @@ func startInstanceOnce(cfg InstCfg) (*Instance, error) {
 	case <-time.After(20 * time.Millisecond):
 	}
 	in.Started = time.Now()
+	in.setLive(true)
 	// readiness: the node manager writes versionApp to the root once at start-up
 	deadline := time.Now().Add(30 * time.Second)
 	for {
@@ -270,8 +271,38 @@ func startInstanceOnce(cfg InstCfg) (*Instance, error) {
 	return in, nil
 }
 
+var liveMu sync.Mutex
+var liveInst = map[*Instance]bool{}
+
+// UnexpectedEnds names the instances whose Run returned although nobody stopped them.
+func UnexpectedEnds() string {
+	liveMu.Lock()
+	defer liveMu.Unlock()
+	out := ""
+	for in := range liveInst {
+		select {
+		case e := <-in.runErr:
+			in.runErr <- e
+			out += fmt.Sprintf("[instance %s (bus port %d): Run returned %v] ", in.Cfg.ID, in.Ports[0], e)
+		default:
+		}
+	}
+	return out
+}
+
+func (in *Instance) setLive(v bool) {
+	liveMu.Lock()
+	if v {
+		liveInst[in] = true
+	} else {
+		delete(liveInst, in)
+	}
+	liveMu.Unlock()
+}
+
 // abort gives up a half-started instance.
 func (in *Instance) abort() {
+	in.setLive(false)
 	in.stopOnce.Do(func() { in.Srv.Stop(nil) })
 	select {
 	case <-in.runErr:
@@ -311,6 +342,7 @@ func (in *Instance) StopWait(limit time.Duration) (returned bool, runErr error) 
 	}
 	in.conns = nil
 	in.mu.Unlock()
+	in.setLive(false)
 	in.stopOnce.Do(func() { in.Srv.Stop(nil) })
 	select {
 	case e := <-in.runErr:
